@@ -60,6 +60,32 @@ def clauseOf (j : Json) : Option Clause :=
       pure (.cmp op l r)
   | _ => none
 
+def atomOf (j : Json) : Option Atom := do
+  let args ← (getArr j "args").mapM termOf
+  pure ⟨(getStr j "p").toList, args⟩
+
+def litOf (j : Json) : Option SLit :=
+  match getStr j "k" with
+  | "pos" => (atomOf (getObj j "a")).map SLit.pos
+  | "neg" => (atomOf (getObj j "a")).map SLit.neg
+  | "cmp" => do
+      let op ← opOf (getStr j "op")
+      let l ← termOf (getObj j "l")
+      let r ← termOf (getObj j "r")
+      pure (.cmp op l r)
+  | _ => none
+
+def fnOf : String → Option AggFn
+  | "count" => some .count | "sum" => some .sum | "max" => some .max | "min" => some .min | _ => none
+
+def aggOf (j : Json) : Option Agg := do
+  let fn ← fnOf (getStr j "fn")
+  let tuple ← (getArr j "tuple").mapM termOf
+  let cond ← (getArr j "cond").mapM litOf
+  let op ← opOf (getStr j "op")
+  let bound ← termOf (getObj j "bound")
+  pure ⟨fn, tuple, cond, op, bound⟩
+
 def qopOf (s : String) : Option QOp := QOp.all.find? (fun q => q.name == s)
 
 def cardOf (j : Json) : Option Card :=
@@ -88,6 +114,20 @@ def sentenceOf (j : Json) : Option Sentence :=
       let m ← clauseOf (getObj j "main")
       let conds ← (getArr j "conds").mapM clauseOf
       pure (.required m conds)
+  | "aggProhibited" => do
+      let aggs ← (getArr j "aggs").mapM aggOf
+      let cmps ← (getArr j "cmps").mapM litOf
+      let conds ← (getArr j "conds").mapM clauseOf
+      pure (.aggProhibited aggs cmps conds)
+  | "aggRequired" => do
+      let a ← aggOf (getObj j "agg")
+      let conds ← (getArr j "conds").mapM clauseOf
+      pure (.aggRequired a conds)
+  | "aggRequired2" => do
+      let aggs ← (getArr j "aggs").mapM aggOf
+      let c ← litOf (getObj j "cmp")
+      let conds ← (getArr j "conds").mapM clauseOf
+      pure (.aggRequired2 aggs c conds)
   | _ => none
 
 def specOf (j : Json) : Option Spec := (getArr j "spec").mapM sentenceOf
